@@ -54,3 +54,65 @@ package replicationcontroller
   ensures [orders-by-namespace-then-name] (= result (or (strlt {srcs[i].ObjectMeta.Namespace} {srcs[j].ObjectMeta.Namespace})
         (and (= {srcs[i].ObjectMeta.Namespace} {srcs[j].ObjectMeta.Namespace}) (strlt {srcs[i].ObjectMeta.Name} {srcs[j].ObjectMeta.Name}))))
 @*/
+
+/*@ immutable core/v1.ReplicationController.ObjectMeta
+@*/
+
+/*@ theory rccanon
+;; theory rcfilters filtereq sorting
+;; uses meta/v1.ObjectMeta
+(declare-fun |F!core/v1.ReplicationController!ObjectMeta| (V) |S!meta/v1.ObjectMeta|)
+; assumed: GetNamespace() / GetName() of an API object return its ObjectMeta.Namespace / ObjectMeta.Name fields
+(assert (forall ((o V)) (! (and (= (|meta/v1.ObjectMeta.Namespace| (|F!core/v1.ReplicationController!ObjectMeta| o)) (obj-ns o))
+                                (= (|meta/v1.ObjectMeta.Name| (|F!core/v1.ReplicationController!ObjectMeta| o)) (obj-name o))) :pattern ((|F!core/v1.ReplicationController!ObjectMeta| o)))))
+; C17: the child PodsFilter builds for one replication controller: Labels(selector or, lacking one, template labels)
+(define-fun rcChild ((f V) (s V)) Bool
+  (and (not (= f vnil)) (= (dyntype f) |ty!*filter.selectorFilter|)
+       (= (|F!filter.selectorFilter!selector| f)
+          (sel-from-set (ite (and (not (mapNonEmpty (rc-sel s)))
+                                  (not (= (|core/v1.ReplicationControllerSpec.Template| (|F!core/v1.ReplicationController!Spec| s)) vnil)))
+                             (rc-tlabels s) (rc-sel s))))))
+@*/
+
+/*@ func types/replicationcontroller.PodsFilter#canonical
+  props C17
+  theory rccanon
+  note a second view of PodsFilter for C17's order-independence clause (see the workload template): children built, in order, from THE sorted arrangement of the sources
+  requires [sources-valid] (forall ((j Int)) (=> (and (<= 0 j) (< j (slen {sources}))) (not (= (select (sarr {sources}) j) vnil))))
+  loop 1 inv [range] (and (<= 0 (+ {rangeindex} 1)) (<= (+ {rangeindex} 1) (slen {srcs})) (= (slen {srcs}) (slen {sources})))
+  loop 1 inv [srcs-valid] (forall ((j Int)) (=> (and (<= 0 j) (< j (slen {srcs}))) (not (= (select (sarr {srcs}) j) vnil))))
+  loop 1 inv [one-child-per-source] (= (slen {filters}) (+ {rangeindex} 1))
+  at call(Slice).after assert [sorted-by-namespace-then-name] (sortedByKey {srcs})
+  at call(Slice).after assert [same-elements-as-the-arguments] (sameElements {srcs} {sources})
+  at call(Slice).after assert [distinct-keys-preserved] (=> (distinctKeys {sources}) (distinctKeys {srcs}))
+  at call(Slice).after assert [same-elements-as-the-canonical-order] (sameElements {srcs} (sortedSources {sources}))
+  at call(Slice).after apply SORT-sorted-sequences-with-the-same-distinct-keyed-elements-agree (a {srcs}) (b (sortedSources {sources}))
+  at call(Slice).after assert [is-the-canonical-order] (=> (distinctKeys {sources}) (forall ((q Int)) (=> (and (<= 0 q) (< q (slen {srcs})))
+        (= (select (sarr {srcs}) q) (select (sarr (sortedSources {sources})) q)))))
+  loop 1 inv [sources-in-canonical-order] (=> (distinctKeys {sources}) (forall ((q Int)) (=> (and (<= 0 q) (< q (slen {srcs})))
+        (= (select (sarr {srcs}) q) (select (sarr (sortedSources {sources})) q)))))
+  loop 1 inv [children-built-from-the-sorted-sources] (forall ((q Int)) (=> (and (<= 0 q) (< q (slen {filters})))
+        (rcChild (select (sarr {filters}) q) (select (sarr {srcs}) q))))
+  ensures [canonical-children] (=> (distinctKeys {sources}) (let ((kids (|unbox!filter.orFilter| result)))
+        (and (= (slen kids) (slen {sources}))
+             (forall ((q Int)) (=> (and (<= 0 q) (< q (slen kids))) (rcChild (select (sarr kids) q) (select (sarr (sortedSources {sources})) q)))))))
+  ensures [is-or] (and (not (= result vnil)) (= (dyntype result) |ty!filter.orFilter|))
+@*/
+
+/*@ lemma C17-order-independent-replicationcontroller-PodsFilter
+  props C17
+  theory rccanon
+  note PodsFilter compares equal whatever the order of its sources (pairwise distinct namespace/name)
+  var xs : (Slice V)
+  var ys : (Slice V)
+  assume (and (>= (slen xs) 0) (= (slen xs) (slen ys)))
+  assume [same-sources-in-any-order] (sameElements xs ys)
+  assume [distinct-namespace-name] (and (distinctKeys xs) (distinctKeys ys))
+  call r1 := types/replicationcontroller.PodsFilter#canonical xs
+  call r2 := types/replicationcontroller.PodsFilter#canonical ys
+  apply SORT-sorted-sequences-with-the-same-distinct-keyed-elements-agree (a (sortedSources xs)) (b (sortedSources ys))
+  call eq := filter.FiltersEqual r1 r2
+  prove [same-canonical-order] (forall ((q Int)) (=> (and (<= 0 q) (< q (slen xs))) (= (select (sarr (sortedSources xs)) q) (select (sarr (sortedSources ys)) q))))
+  prove [built-the-same-way] (bs r1 r2)
+  prove [compare-equal] eq
+@*/
